@@ -1,6 +1,6 @@
 SPECIFICATION Spec
 CONSTANTS
-  Base <- SmallBase
+  LimbBits <- SmallLimbBits
   N = 24
   BreakSub = TRUE
 INVARIANTS NatLaws ZLaws BoundLaws WideLaws
